@@ -1,4 +1,4 @@
-(* C03, the piece lists: undo_move after do_move keeps the list / key invariant (KeyScratch.piece_inv), so - the board being restored
+(* C03, the piece lists and the bitboards: undo_move after do_move keeps the list / key invariant (KeyScratch.piece_inv), so - the board being restored
    (RepRoundTripLegal.undo_do_legal) - every piece list comes back as a duplicate-free enumeration of the same squares: a permutation of
    what it was (swap-remove reorders, nothing is lost or invented). *)
 From CV Require Import Engine.PositionRep Engine.EncodingProofs Engine.RepProofs Engine.RepRoundTrip Engine.RepRoundTripNormal
@@ -213,7 +213,7 @@ Section U.
   Lemma lists_perm s1 s2 pc : piece_inv zt s1 -> piece_inv zt s2 -> r_board s1 = r_board s2 -> 1 <= pc <= 12 ->
     Permutation (nthd (r_lists s1) pc []) (nthd (r_lists s2) pc []).
   Proof.
-    intros [_ [_ [_ [Hcov1 [_ [_ [_ [_ Hls1]]]]]]]] [_ [_ [_ [Hcov2 [_ [_ [_ [_ Hls2]]]]]]]] Eb Hpc.
+    intros [_ [_ [_ [Hcov1 [_ [_ [_ [_ [Hls1 _]]]]]]]]] [_ [_ [_ [Hcov2 [_ [_ [_ [_ [Hls2 _]]]]]]]]] Eb Hpc.
     destruct (Hls1 pc Hpc) as [N1 E1]. destruct (Hls2 pc Hpc) as [N2 E2].
     apply NoDup_Permutation; [exact N1|exact N2|]. intro x. split; intro Hin.
     - destruct (E1 x Hin) as [A B]. rewrite Eb in B. rewrite <- B. apply Hcov2; [exact A|lia].
@@ -228,6 +228,32 @@ Section U.
     assert (Hk : key_ok zt s) by (split; [exact Hkc|exact Hke]).
     pose proof (undo_do_legal zt s m Hok Hk H) as Hobs.
     apply lists_perm; [apply undo_do_piece_inv; assumption|exact Hp| |exact Hpc].
+    unfold obs in Hobs. injection Hobs as _ _ _ Eb _ _ _ _. exact Eb.
+  Qed.
+  (* the bitboards are functions of the board: two states with the invariant and the same board have the same two families *)
+  Lemma fam_eq (F1 F2 : list N) n b proj : fam_sound F1 n b proj -> fam_sound F2 n b proj -> F1 = F2.
+  Proof.
+    intros [L1 S1] [L2 S2]. apply (nth_ext F1 F2 0 0); [congruence|]. intros j Hj. rewrite L1 in Hj.
+    apply N.bits_inj. intro i. pose proof (S1 (N.of_nat j) i) as A. pose proof (S2 (N.of_nat j) i) as B.
+    unfold nthd in A, B. rewrite Nat2N.id in A, B. rewrite A, B by exact Hj. reflexivity.
+  Qed.
+
+  Lemma bitboards_eq s1 s2 : piece_inv zt s1 -> piece_inv zt s2 -> r_board s1 = r_board s2 ->
+    r_kind_bb s1 = r_kind_bb s2 /\ r_color_bb s1 = r_color_bb s2.
+  Proof.
+    intros [_ [_ [_ [_ [_ [_ [_ [_ [_ [K1 C1]]]]]]]]]] [_ [_ [_ [_ [_ [_ [_ [_ [_ [K2 C2]]]]]]]]]] Eb. rewrite Eb in K1, C1.
+    split; [exact (fam_eq _ _ _ _ _ K1 K2)|exact (fam_eq _ _ _ _ _ C1 C2)].
+  Qed.
+
+  (* C03 for the bitboards: taking a move back restores both families exactly *)
+  Theorem undo_do_bitboards s m : rep_ok s -> key_inv zt s -> pseudo_legal (rep_abs s) m = true ->
+    let s' := undo_move zt (fst (do_move zt s (enc m))) (enc m) (snd (do_move zt s (enc m))) in
+    r_kind_bb s' = r_kind_bb s /\ r_color_bb s' = r_color_bb s.
+  Proof.
+    intros Hok Hki H s'. destruct (Hki) as [Hp [Hke [Hkc _]]].
+    assert (Hk : key_ok zt s) by (split; [exact Hkc|exact Hke]).
+    pose proof (undo_do_legal zt s m Hok Hk H) as Hobs.
+    apply bitboards_eq; [apply undo_do_piece_inv; assumption|exact Hp|].
     unfold obs in Hobs. injection Hobs as _ _ _ Eb _ _ _ _. exact Eb.
   Qed.
 End U.
